@@ -317,6 +317,27 @@ class S:
     def __float__(s):
         raise NotEncodable('float() of a symbolic value')
 
+    def __floordiv__(s, o):
+        return sfloor(div(s, o))
+
+    def __rfloordiv__(s, o):
+        return sfloor(div(o, s))
+
+    def __mod__(s, o):
+        return s - o * sfloor(div(s, o))
+
+    def __rmod__(s, o):
+        return o - s * sfloor(div(o, s))
+
+    def __trunc__(s):
+        return sint(s)
+
+    def __floor__(s):
+        return sfloor(s)
+
+    def __ceil__(s):
+        return sceil(s)
+
     def __bool__(s):
         # truthiness of a real (`if x:`, `x and y`, `not x`): x != 0, a branch like any other comparison
         r = (s != 0)
